@@ -10,6 +10,15 @@ class Ctx:
         self.F.summaries()
         # helpers extracted from traversal kernels are spliced back into their callers (see inline.py)
         from .inline import absorb_kernel_helpers
+        from .normalize import normalize
+        # `ITER.filter(closure)` in a kernel candidate is rewritten into the equivalent loop-with-if form first
+        self.F.desugared = {}
+        for q, b in list(self.F.bodies.items()):
+            if b['kind'] != 'Closure' and _k.kernel_params(self.F, b) is not None:
+                nb = normalize(self.F, b)
+                if nb is not None:
+                    self.F.bodies[q] = nb
+                    self.F.desugared[q] = nb['desugared_filters']
         absorbed, new = absorb_kernel_helpers(
             self.F, lambda b: _k.kernel_params(self.F, b) is not None or
             (b.get('impl_self_q', '').endswith('::node::Node') and not b.get('impl_trait') and b.get('name') in ('connect', 'try_connect', 'disconnect', 'isolate')) or
